@@ -35,6 +35,8 @@ pub struct SinkState {
     pub calls: usize,
     pub write_calls: usize,
     pub short_writes: bool,
+    /// keep the list of individual write/flush events (off by default: costs an allocation per write)
+    pub record_events: bool,
     pub fault: Option<Fault>,
     pub raised: Vec<usize>,
 }
@@ -89,7 +91,9 @@ impl embedded_io::Write for RecSink {
             buf.len()
         };
         let n = n.min(buf.len());
-        s.events.push(Ev::Write(buf[..n].to_vec()));
+        if s.record_events {
+            s.events.push(Ev::Write(buf[..n].to_vec()));
+        }
         s.bytes.extend_from_slice(&buf[..n]);
         s.unflushed += n;
         Ok(n)
@@ -104,7 +108,9 @@ impl embedded_io::Write for RecSink {
             s.raised.push(idx);
             return Err(SinkErr(idx));
         }
-        s.events.push(Ev::Flush);
+        if s.record_events {
+            s.events.push(Ev::Flush);
+        }
         s.unflushed = 0;
         Ok(())
     }
